@@ -348,9 +348,22 @@ async def check_case(case, rec, ctx):
                 f"{[x[:2] for x in case['during']]}; watcher reported {side['reported'][:8]}")
         rc_w, rc_r = H.returncode_class(side["rc"]), H.returncode_class(r2.returncode)
         rec.event("rc:" + rc_w)
+        # Root-cause refinement (recorded finding): the restart's startup scan reports a change
+        # of a directory-level glob match that the watcher never reported.
+        seen_by_watcher = {dsc for _t, dsc in side["reported"]}
+        unnoticed_dirs = sorted({dsc.split(" (")[0] for t, dsc, _ in r2.events
+                                 if t in ("UPDATED", "DELETED")
+                                 and dsc.split(" (")[0].endswith("/")} - seen_by_watcher)
+
+        def sig(generic):
+            return "directory-glob-match-changed-unnoticed-by-watcher" if unnoticed_dirs \
+                else generic
+
+        if unnoticed_dirs:
+            what += f"; directory matches only the restart noticed: {unnoticed_dirs}"
         if rc_w != rc_r:
             raise Violation(
-                f"{PROPERTY}/return-code-differs",
+                f"{PROPERTY}/{sig('return-code-differs')}",
                 f"rebuild while watching ended {rc_w}, restart on the same files ended {rc_r}; "
                 f"{what}; watch side ran {side['commands']}, restart ran {r2.commands}")
         files_r = non_stepup_files(fs_snapshot("."))
@@ -360,14 +373,14 @@ async def check_case(case, rec, ctx):
             differ = sorted(p for p in files_r if p in side["files"]
                             and files_r[p] != side["files"][p])
             raise Violation(
-                f"{PROPERTY}/files-differ",
+                f"{PROPERTY}/{sig('files-differ')}",
                 f"only after the watch rebuild: {only_w}; only after the restart: {only_r}; "
                 f"different content: {differ}; {what}; watch side ran {side['commands']}, "
                 f"restart ran {r2.commands}")
         g_w = H.project_graph(side["tables"])
         g_r = H.project_graph(r2.tables)
         if g_w != g_r:
-            raise Violation(f"{PROPERTY}/{classify_graph_diff(g_w, g_r)}",
+            raise Violation(f"{PROPERTY}/{sig(classify_graph_diff(g_w, g_r))}",
                             what + "\n" + H.diff_facts(g_w, g_r, "watch rebuild", "restart"))
         if side["reported"]:
             rec.mark_nontrivial([spec, case["actions"], case["during"]],
